@@ -10,18 +10,24 @@ THEOREMS = ["Mesa.Devs." + t for t in (
     "C14_clock_monotone", "C14_run_until_post", "C14_schedule_rejects_exactly", "C14_peek_is_execution_order",
     "C14_priority_order_generated", "C14_upfront_events_run_in_sorted_order", "C14_heapq_is_priority_queue",
     "C14_heap_refines_sorted_queue", "C14_spared_event_is_served", "C14_spared_event_is_served_rel",
-    "C14_spared_due_event_executed", "C14_execution_order", "C14_collected_never_executes")]
+    "C14_spared_due_event_executed", "C14_spared_due_event_executed_rel", "C14_execution_order", "C14_execution_order_history", "C14_collected_never_executes",
+    "C14_shared_callable_event_is_served", "C14_shared_due_event_executed", "C14_collected_callable_never_runs",
+    "C14_drop_kills_every_sharer", "C14_weakref_dead_iff_callable_dropped", "C14_run_until_aborted", "C14_raising_event_never_rerun", "C14_resume_after_exception")]
 COUNTS = {"quick": 600, "thorough": 200000}
 TRUSTED = [
     "heapq: no longer assumed — Model/Heap.lean transcribes Lib/heapq.py (heappush/heappop/_siftdown/_siftup), Proofs/Heap.lean proves it a priority queue for any strict weak order, Proofs/DevsHeap.lean proves the model's sorted list a sound abstraction of the heap array, and every check compares the transcription's array layout with CPython's heapq (the C accelerator _heapq is what actually runs); trusted: that EventList reaches its list only through heappush / heappop / iteration (read off the source)",
-    "CPython weakref: a callable dies exactly when the program drops its last strong reference (refcounting)",
+    "CPython weakref: a callable dies exactly when the program drops its last strong reference (refcounting); a callable that drops itself while it runs is kept alive by the running call only (it is dead when the call returns)",
     "times are ints in units of 1/1024: ints and dyadic floats, for which the code's +, <, <= are exact; IEEE rounding of other floats is not modelled",
-    "event actions are command lists (schedule / cancel / drop); arbitrary Python side effects of callbacks are not modelled",
+    "event actions are command lists (schedule / again / cancel / drop / raise); arbitrary Python side effects of callbacks are not modelled",
+    "exceptions: IndexError / ValueError / KeyError raised by a callable or the step body (other BaseExceptions propagate the same way: there is one except clause, around pop_event); the program catches what comes out of a run call and goes on",
 ]
 ASSUMPTIONS = ["event programs terminate (generator emits well-founded programs only; theorems are stated for sufficient fuel)",
                "run_until(t) is called with t not before the clock (the property's quantifier)"]
 RULE = ("random scenarios over both simulator classes: <=5 event programs (nested scheduling to strictly smaller program index, "
-        "cancels, reference drops), 3-15 top-level ops from {abs, rel (incl. negative), cancel, drop, until, for, next, peek} with "
+        "cancels, reference drops, re-scheduling of shared callable objects), 3-15 top-level ops from {abs, rel (incl. negative), again, "
+        "cancel, drop, until, for, next, peek}; a shared-callable stream (few callables scheduled many times, same-tick sharers, drops "
+        "from the callable itself / other events / top level, cancels of single sharers; functions and bound methods); a raise stream "
+        "(programs and step bodies that raise Index/Value/Key with events still due, the same horizon again after the exception) with "
         "times from a small set so that ties in time and priority are frequent; non-trivial = at least one run op executed "
         ">= 2 events; distinct = distinct op-line sequences (sha1)")
 
@@ -35,6 +41,10 @@ def generate(rng, tier, count):
             yield D.gen_peek_heavy(rng)
         elif k < 0.39:
             yield D.gen_wide(rng)
+        elif k < 0.49:
+            yield D.gen_shared(rng)
+        elif k < 0.57:
+            yield D.gen_raise(rng)
         else:
             yield D.gen_scenario(rng)
 
@@ -56,8 +66,12 @@ def tags(sc, obs):
     for l, o in zip(sc.lines, obs):
         w = l.split()[0]
         yield "op:" + w
-        if o.startswith("err"):
+        if o.startswith("err Raised"):
+            yield "branch:run-cut-short-" + o.split()[2]
+        elif o.startswith("err"):
             yield "reject:" + o.split()[1]
+            if w == "again":
+                yield "branch:again-rejected-" + o.split()[1]
     tr = sc.meta.get("trace") or []
     if any(e[0] == "sched" and e[4] > 0 and e[5] in ("abs", "rel") for e in tr):
         yield "branch:scheduled-after-clock-moved"
@@ -65,6 +79,8 @@ def tags(sc, obs):
         yield "branch:cancel"
     if any(e[0] == "drop" for e in tr):
         yield "branch:callable-collected"
+    yield from sorted(D.shared_tags(tr))
+    yield from sorted(D.raise_tags(sc, tr))
 
 
 if __name__ == "__main__":
